@@ -457,7 +457,9 @@ func c01NegotiateFeatures(c *cx, nf *eng.Fn, call *ast.CallExpr) (firstParam str
 			// Resource binding ends the negotiation through its mask; clearing
 			// the bit unconditionally leaves every session waiting for a
 			// features list that never comes.
-			keepCut := g.CutFor("eq("+callNorm+"#1,nil)", "eq(r1,nil)")
+			// (C01.22: the bit is withheld while another eligible mandatory feature
+			// of the same advertisement is left; that licence is assumed away here)
+			keepCut := g.CutFor("eq("+callNorm+"#1,nil)", "eq(r1,nil)", "!xmpp.mandatoryLeft(*)")
 			stripped := ""
 			for _, b := range g.Blocks {
 				if !b.Live {
@@ -471,6 +473,20 @@ func c01NegotiateFeatures(c *cx, nf *eng.Fn, call *ast.CallExpr) (firstParam str
 				}
 			}
 			c.r.Check("C01.9", nf, "Ready of a feature that does not restart the stream is kept", "O: assuming rw == nil no statement that clears Ready from the feature's mask is reachable from Negotiate", call.Pos(), stripped == "", stripped)
+			// ---- C01.22 a feature's Ready does not end the negotiation while an
+			// eligible mandatory feature of the same advertisement is left ---------
+			leftCut := g.CutFor("eq("+callNorm+"#2,nil)", "all(*,xmpp.Ready)", "xmpp.mandatoryLeft(*)")
+			nLeft := 0
+			for _, rs := range g.Returns {
+				rpt, _ := g.Where(rs)
+				if len(rs.Results) == 0 || !mentions(rs.Results[0]) || g.RetKindOf(rs) == eng.RetError || !g.Reachable(g.After(callPt), rpt, nil, nil) {
+					continue
+				}
+				nLeft++
+				c.r.Check("C01.22", nf, "feature mask returned: no Ready with an eligible mandatory feature left", "O: on every path from Negotiate to the return of its mask on which the mask carries Ready and mandatoryLeft holds, the Ready bit is cleared", rs.Pos(), g.MustPassBefore(g.After(callPt), rpt, isClear, leftCut), "a mandatory feature that reports Ready (as resource binding does) ends the negotiation although another mandatory feature of the same advertisement is eligible and has not been negotiated")
+			}
+			c.r.Floor("C01.22", "returns of the feature's mask", nLeft, 1)
+			c01MandatoryLeft(c, "C01.22")
 		}
 	}
 
@@ -505,6 +521,11 @@ func c01NegotiateFeatures(c *cx, nf *eng.Fn, call *ast.CallExpr) (firstParam str
 			return true
 		}
 		if be, ok := g.Parent(e).(*ast.BinaryExpr); ok && be.Op == token.AND_NOT && be.Y == e {
+			return true
+		}
+		// ... or an operand of a test of the bit (x&Ready == Ready): a mask
+		// ANDed with Ready gains nothing, a comparison produces a boolean
+		if be, ok := g.Parent(e).(*ast.BinaryExpr); ok && (be.Op == token.AND || be.Op == token.EQL || be.Op == token.NEQ) {
 			return true
 		}
 		pt, okp := g.Where(st)
@@ -1102,4 +1123,67 @@ func c01FeatureMatchedByName(c *cx, id string) {
 		c.domAny(id, f, rs, "feature found", []string{"eq(rangeval(p1).Name,p0)", "eq(p0,rangeval(p1).Name)", "and(*eq(rangeval(p1).Name.Space,p0.Space)*eq(rangeval(p1).Name.Local,p0.Local)*)", "and(*eq(rangeval(p1).Name.Local,p0.Local)*eq(rangeval(p1).Name.Space,p0.Space)*)"})
 	}
 	c.r.Floor(id, "positive returns of getFeature", n, 1)
+}
+
+// c01MandatoryLeft (C01.22): mandatoryLeft answers true for every cache entry
+// that is mandatory, negotiable, not negotiated yet and whose prerequisites
+// hold in the current state: an iteration goes on to the next entry only over
+// an edge that contradicts one of these, and false is returned only when the
+// cache is exhausted.
+func c01MandatoryLeft(c *cx, id string) {
+	f := c.fn(id, "", "mandatoryLeft")
+	if f == nil {
+		return
+	}
+	g := f.Graph()
+	isTrue := func(q eng.Point, n ast.Node) bool {
+		rs, ok := n.(*ast.ReturnStmt)
+		if !ok || len(rs.Results) != 1 {
+			return false
+		}
+		tv, ok := f.Info().Types[resolveBool(f, rs.Results[0])]
+		return ok && tv.Value != nil && tv.Value.String() == "true"
+	}
+	n := 0
+	f.WalkBody(func(nd ast.Node) bool {
+		rs, ok := nd.(*ast.RangeStmt)
+		if !ok {
+			return true
+		}
+		if cls, _ := f.FieldClass(rs.X); cls != "xmpp.streamFeaturesList.cache" {
+			return true
+		}
+		body, head, _, okp := g.LoopPoints(rs)
+		if !okp {
+			return true
+		}
+		n++
+		cut := g.CutFor(
+			"!commaok(*.negotiated[rangeval(*.cache).feature.Name.Space])",
+			"rangeval(*.cache).req",
+			"!eq(rangeval(*.cache).feature.Negotiate,nil)",
+			"all(*.state,rangeval(*.cache).feature.Necessary)",
+			"none(*.state,rangeval(*.cache).feature.Prohibited)")
+		bad := ""
+		if g.Reachable(body, head, cut, isTrue) {
+			bad = "an entry that is mandatory, negotiable, not negotiated and eligible is passed over"
+		}
+		for _, r := range g.Returns {
+			rp, _ := g.Where(r)
+			if !isTrue(rp, r) && g.Reachable(body, rp, cut, isTrue) {
+				bad = "false is returned from inside the loop for an eligible mandatory entry (" + c.p.Pos(r.Pos()) + ")"
+			}
+		}
+		c.r.Check(id, f, "scan of the advertised features", "O: an iteration of the scan reaches the next entry or a false return only over an edge that contradicts {not negotiated, mandatory, negotiable, prerequisites hold now}", rs.Pos(), bad == "", bad)
+		return true
+	})
+	for _, r := range g.Returns {
+		rp, _ := g.Where(r)
+		if isTrue(rp, r) {
+			continue
+		}
+		n++
+		c.dom(id, f, r, "not-left answer", []string{"!rangenext(*.cache)"})
+	}
+	c.r.Floor(id, "scan loop and false returns of mandatoryLeft", n, 2)
 }
